@@ -1,17 +1,31 @@
 (* Properties_C03.v - resume restarts exactly at the step that did not complete.
-   [step_next] models util.sh step_next on the abstract step file (rows in
-   ascending id order, which C01 guarantees); [orch] models the loop of robsd()
-   over synchronous steps with the two records step_exec_job writes per step;
-   [reach steps] = every file a crash (kill at ANY point between two step-file
-   writes) can leave during a fresh run or during a run resumed from such a
-   file, any number of times.  A crash inside one robsd-step -W is outside the
-   quantifier (C01/C02 cover the write itself). *)
-From Robsd Require Import Orch.ResumeSpec Orch.ResumeProofs Orch.ReportBridge Report.ReportSpec.
+   [step_next] models util.sh step_next on the abstract step file (rows in ascending id order, which C01
+   guarantees); [orch] models the loop of robsd() over synchronous steps with the two records
+   step_exec_job writes per step; both are proved equal to the functions assembled from what the
+   translator reads in util.sh ([C03_step_next_translated], [C03_loop_translated]).
+
+   Quantifiers.  [k] is the skeleton of the configuration: (id, name) in ascending id order, names may
+   repeat ([wf_skel]).  [reachv k] = every file a crash (kill at ANY point between two step-file writes)
+   can leave during a fresh run or during a run resumed from such a file, any number of times; every
+   run comes with its own exit codes (a step that failed may succeed when the invocation is resumed).
+   Files start from the skip records of the entry script (skip = 1, exit 0: what step_write -S -e 0
+   writes); an invocation resumed at step 1 writes the skip records of ITS OWN skip set first ([rv_reskip]:
+   other -s options than the first invocation; a failed step 1 may so be turned into a skipped one).  The
+   theorems about what a resumed invocation executes speak of the loop started on the file as the crash
+   left it, i.e. of resumed invocations that add no skip records.  A crash inside one robsd-step -W is
+   outside the quantifier (C01/C02 cover the write itself).
+
+   The earlier theorems C03_crash_resume / C03_orchestrator_files_are_good / C03_files_meet_report_hypothesis
+   (one fixed exit code per step for all attempts, distinct names: Orch/ResumeProofs.v [reach], [good]) are
+   replaced by the stronger statements below; their lemmas remain in ResumeProofs.v. *)
+From Robsd Require Import Orch.ResumeSpec Orch.ResumeProofs Orch.ResumeExec Orch.ResumeTie Orch.WrittenInv
+                          Orch.ReportBridge.
+From Robsd Require Orch.OrchDefs Report.ReportSpec.
+From Coq Require Import Sorting.Sorted.
 Local Open Scope Z_scope.
 
-(* the sentence of the property, literally: last recorded non-skipped step if it
-   failed / was in flight / is end, otherwise the following one; fail if only
-   skipped steps are recorded - for EVERY row list *)
+(* the sentence of the property, literally: last recorded non-skipped step if it failed / was in flight /
+   is end, otherwise the following one; fail if only skipped steps are recorded - for EVERY row list *)
 Theorem C03_resume_point : forall f, step_next f = spec_resume f.
 Proof. exact step_next_spec. Qed.
 Print Assumptions C03_resume_point.
@@ -21,54 +35,134 @@ Theorem C03_skip_only_fails : forall f,
 Proof. exact skip_only_fails. Qed.
 Print Assumptions C03_skip_only_fails.
 
-(* for every schedule of synchronous steps with arbitrary exit codes, every
-   skip set and every crash point, also across repeated crashes and resumes:
-   resuming never re-executes a step that completed successfully (other than
-   end) and never starts beyond a step that did not *)
-Theorem C03_crash_resume : forall steps, wf_steps steps ->
-  forall f x, reach steps f -> step_next f = Some x -> resume_ok f x.
-Proof. exact crash_resume. Qed.
+(* the records: for every configuration, every skip set, every crash point, repeated crashes and resumes
+   with exit codes that may change between attempts - the resume point never lies beyond a step that did
+   not complete, and no record of a successfully completed step (other than end) lies at or beyond it *)
+Theorem C03_crash_resume : forall k, wf_skel k ->
+  forall f x, reachv k f -> step_next f = Some x -> resume_ok f x.
+Proof. exact (fun k W f x => crash_resume_v k f x W). Qed.
 Print Assumptions C03_crash_resume.
 
-(* the files the sequential orchestrator can leave are exactly of the shape the
-   report relies on (C05): every non-skipped record except the last completed
-   successfully and is not the end step *)
-Theorem C03_orchestrator_files_are_good : forall steps, wf_steps steps ->
-  forall f, reach steps f -> good steps f.
-Proof. exact reach_good. Qed.
+(* the "Consequently" clause, about what the resumed invocation EXECUTES ([ex]: the ids of the steps whose
+   commands it runs, in order; [g]: the file at any later crash point or at the end of the run):
+   nothing below the resume point runs, steps run in order and at most once; a step that completed
+   successfully is never run again; when the resume point is the record of a failed or interrupted step
+   that step is the first to run; and it never starts beyond: every configured step before the first
+   one it runs is marked skipped or completed successfully *)
+Theorem C03_resumed_run_executes : forall k steps f x g ex,
+  wf_skel k -> skel_of steps = k -> reachv k f -> step_next f = Some x ->
+  In (g, ex) (orch (from_step x steps) f) ->
+  Forall (fun i => x <= i) ex /\ StronglySorted Z.lt ex /\
+  (forall j, completed f j -> ~ In j ex) /\
+  (forall r, In r f -> nonskip r = true -> r_id r = x -> r_name r <> END ->
+     ex = [] \/ exists ex', ex = x :: ex') /\
+  (forall i ex', ex = i :: ex' -> forall s, In s k -> fst s < i ->
+     skipped f (snd s) = true \/ completed f (fst s)).
+Proof. exact resumed_run_executes_v. Qed.
+Print Assumptions C03_resumed_run_executes.
+
+(* ... and it does run the interrupted or failed step again: its record is rewritten as in flight, then
+   with the new outcome [e] (any exit code), and every later point of the run has executed it first *)
+Theorem C03_resume_reexecutes : forall k steps f x r,
+  wf_skel k -> skel_of steps = k -> reachv k f -> step_next f = Some x ->
+  In r f -> nonskip r = true -> r_id r = x -> r_name r <> END ->
+  exists e tl,
+    In (x, r_name r, e) steps /\
+    orch (from_step x steps) f =
+      (upsert (mkrow x (r_name r) (-1) 0) f, []) ::
+      (upsert (mkrow x (r_name r) e 0) (upsert (mkrow x (r_name r) (-1) 0) f), [x]) :: tl /\
+    forall g ex, In (g, ex) tl -> exists ex', ex = x :: ex'.
+Proof. exact resume_reexecutes_v. Qed.
+Print Assumptions C03_resume_reexecutes.
+
+(* the invariant of the files the orchestrator leaves: ascending ids, records carry the names of their
+   steps, every record that is not a skip record except the one with the largest id completed successfully
+   and is not end, no such record carries a name marked skipped, below such a record every configured step
+   is marked skipped or has such a record, skip records carry exit 0 *)
+Theorem C03_orchestrator_files_are_good : forall k, wf_skel k ->
+  forall f, reachv k f -> goodk k f.
+Proof. exact reachv_goodk. Qed.
 Print Assumptions C03_orchestrator_files_are_good.
 
-(* ... and that shape is exactly the hypothesis [reachable_seq] under which C05 proves the
-   status line of the report for the sequential modes *)
-Theorem C03_files_meet_report_hypothesis : forall steps, wf_steps steps ->
-  forall f, reach steps f -> reachable_seq (map to_report f).
-Proof. exact (fun steps W f R => good_meets_report_hypothesis steps f (reach_good steps W f R)). Qed.
+(* ... which gives the hypothesis [reachable_seq] of C05's status theorem on the report's view of the
+   same rows of the step file (composed with the status theorem itself in C05_status_orchestrated) *)
+Theorem C03_files_meet_report_hypothesis : forall k (rows : list StepDefs.row), wf_skel k ->
+  reachv k (map orch_view rows) -> ReportSpec.reachable_seq (map ReportTypes.view rows).
+Proof. exact (fun k rows W R => reachable_seq_of_goodk k rows (reachv_goodk k W _ R)). Qed.
 Print Assumptions C03_files_meet_report_hypothesis.
 
+(* the two oracles of the harness: the one on records is the statement of C03_crash_resume; the one on the
+   steps a resumed invocation really started accepts every run of the model *)
 Theorem C03_oracle_reflects : forall f x, resume_okb f x = true <-> resume_ok f x.
 Proof. exact resume_okb_spec. Qed.
 Print Assumptions C03_oracle_reflects.
 
-(* non-vacuity: a run of a, b(skipped), c(fails), d, end crashed while c was in flight *)
+Theorem C03_exec_oracle_accepts_model : forall k steps f x g ex,
+  wf_skel k -> skel_of steps = k -> reachv k f -> step_next f = Some x ->
+  In (g, ex) (orch (from_step x steps) f) -> spec_ok_resumed k f x ex = true.
+Proof. exact spec_ok_resumed_model_v. Qed.
+Print Assumptions C03_exec_oracle_accepts_model.
+
+(* tie to util.sh by translation: the decision of step_next on one row and the walk from the last row
+   backwards; the loop of robsd() with step_skip's test, the two records of step_exec_job (exit -1, then
+   the outcome), skip = 0 on every record of the loop, the end record, the stop after a failed step *)
+Theorem C03_step_next_translated : forall f, step_next f = gen_next_from_rev (rev f).
+Proof. exact step_next_translated. Qed.
+Print Assumptions C03_step_next_translated.
+
+Theorem C03_loop_translated : forall steps f, orch steps f = gen_orch steps f.
+Proof. exact orch_translated. Qed.
+Print Assumptions C03_loop_translated.
+
+(* boundary, stated as a theorem: with PARALLEL steps (regress, canvas) an interrupted step below a later
+   completed one is not executed again - p1 in flight, p2 (higher id, parallel) completed, kill: the file
+   reads 1,p1,-1 2,p2,0, step_next answers 3 and no resumed run executes step 1.  The property speaks of
+   sequential invocations; the record with exit -1 stays and is reported as a failure (C05). *)
+Theorem C03_parallel_resume_skips_inflight :
+  OrchDefs.sfile_ par_crashed = [mkrow 1 par_p1 (-1) 0; mkrow 2 par_p2 0 0] /\
+  OrchDefs.running par_crashed = [(1, OrchDefs.JRunning)] /\
+  step_next (OrchDefs.sfile_ par_crashed) = Some 3 /\
+  ~ resume_ok (OrchDefs.sfile_ par_crashed) 3 /\
+  (forall steps g ex, StronglySorted (fun a b => sid a < sid b) steps ->
+     In (g, ex) (orch (from_step 3 steps) (OrchDefs.sfile_ par_crashed)) -> ~ In 1 ex).
+Proof. exact parallel_resume_skips_inflight. Qed.
+Print Assumptions C03_parallel_resume_skips_inflight.
+
+(* non-vacuity: a, b(skipped), c(fails with 2), a AGAIN (same name as step 1), end.  The fresh run is killed
+   while c is in flight / stops after c failed; the operator repairs c; the resumed run (c now exits 0) runs
+   c, the second a and end - and nothing else *)
 Example C03_example :
   let nm := fun c => [c]%N in
-  let steps := [(1, nm 97%N, 0); (2, nm 98%N, 0); (3, nm 99%N, 2); (4, nm 100%N, 0); (5, END, 0)] in
+  let k := [(1, nm 97%N); (2, nm 98%N); (3, nm 99%N); (4, nm 97%N); (5, END)] in
+  let steps1 := [(1, nm 97%N, 0); (2, nm 98%N, 0); (3, nm 99%N, 2); (4, nm 97%N, 0); (5, END, 0)] in
+  let steps2 := [(1, nm 97%N, 0); (2, nm 98%N, 0); (3, nm 99%N, 0); (4, nm 97%N, 0); (5, END, 0)] in
   let f0 := [mkrow 2 (nm 98%N) 0 1] in
-  let files := map fst (orch steps f0) in
-  wf_steps steps /\ skip_only steps f0 /\
+  let files := map fst (orch steps1 f0) in
+  let crashed := [mkrow 1 (nm 97%N) 0 0; mkrow 2 (nm 98%N) 0 1; mkrow 3 (nm 99%N) 2 0] in
+  wf_skel k /\ skip_only0 k f0 /\ skel_of steps1 = k /\ skel_of steps2 = k /\
   map step_next files = [Some 1; Some 2; Some 3; Some 3] /\
-  (forall f, In f files -> reach steps f).
+  (forall f, In f files -> reachv k f) /\
+  last files [] = crashed /\
+  map snd (orch (from_step 3 steps2) crashed) = [[]; [3]; [3]; [3; 4]; [3; 4]] /\
+  (forall g ex, In (g, ex) (orch (from_step 3 steps2) crashed) -> reachv k g).
 Proof.
-  cbv zeta. split; [|split; [|split]].
-  - split; [repeat constructor; cbn; lia|].
-    cbn. repeat constructor; cbn; intuition discriminate.
-  - split; [repeat constructor|]. split.
-    + intros r [<-|[]]. reflexivity.
-    + intros r [<-|[]]. cbn. eexists. right. left. reflexivity.
+  cbv zeta.
+  assert (W : wf_skel [(1, [97%N]); (2, [98%N]); (3, [99%N]); (4, [97%N]); (5, END)])
+    by (repeat constructor; cbn; lia).
+  assert (S0 : skip_only0 [(1, [97%N]); (2, [98%N]); (3, [99%N]); (4, [97%N]); (5, END)] [mkrow 2 [98%N] 0 1]).
+  { split; [repeat constructor|]. split.
+    - intros r [<-|[]]. split; reflexivity.
+    - intros r [<-|[]]. cbn. right. now left. }
+  assert (R : forall f, In f (map fst (orch [(1, [97%N], 0); (2, [98%N], 0); (3, [99%N], 2); (4, [97%N], 0); (5, END, 0)]
+                                           [mkrow 2 [98%N] 0 1])) ->
+              reachv [(1, [97%N]); (2, [98%N]); (3, [99%N]); (4, [97%N]); (5, END)] f).
+  { intros f Hin. apply in_map_iff in Hin. destruct Hin as [[g ex] [<- Hin]].
+    eapply rv_fresh; [exact S0| |exact Hin]. reflexivity. }
+  split; [exact W|]. split; [exact S0|]. split; [reflexivity|]. split; [reflexivity|].
+  split; [vm_compute; reflexivity|]. split; [exact R|]. split; [vm_compute; reflexivity|].
+  split; [vm_compute; reflexivity|].
+  intros g ex Hin. eapply rv_resume with (x := 3); [| | |exact Hin].
+  - apply R. vm_compute. right. right. right. now left.
   - vm_compute. reflexivity.
-  - intros f Hin. apply in_map_iff in Hin. destruct Hin as [[g ex] [<- Hin]].
-    eapply reach_fresh; [|exact Hin].
-    split; [repeat constructor|]. split.
-    + intros r [<-|[]]. reflexivity.
-    + intros r [<-|[]]. cbn. eexists. right. left. reflexivity.
+  - reflexivity.
 Qed.
